@@ -90,6 +90,8 @@ def _obligation_labels(unit, A):
     obs = []
     uprops = list(getattr(unit, 'PROPERTIES', []))
     for it in unit.ITEMS:
+        if it.kind == 'fn' and getattr(it, 'assumed_here', False):
+            continue   # contract imported from the unit that proves it (listed in the unit's ASSUMPTIONS); no obligation here
         if it.kind == 'fn':
             props = it.props or uprops
             for c in it.ensures:
@@ -361,6 +363,8 @@ def run_unit(name, tier='quick', variant=None, keep=True):
     if R.status == 'ok':
         names = set(k.split('::')[-1] for k in R.solver_ms)
         for it in A.items:
+            if it['kind'] == 'fn' and it.get('assumed_here'):
+                continue
             if it['kind'] == 'fn' and it['name'].split('.')[-1] not in names and it['name'] not in names:
                 fnname = re.sub(r'.*\bfn\s+', '', re.split(r'\s>\s', it['path'])[-1]).strip()
                 if fnname not in names and it.get('emitted') not in names:
